@@ -16,6 +16,9 @@ import Driver.SuiteSoftClip
 import Driver.SuiteDecSkel
 import Driver.SuiteEncSkel
 import Driver.SuiteMisc
+import Driver.SuiteSilkCore
+import Driver.SuiteSilkResamp
+import Driver.SuiteSilkPlc
 /-
   `opusmodel check` reads the combined stream written by a C harness:
      I <suite> <op> <args…>      an operation and its arguments
@@ -46,6 +49,9 @@ def dispatch (line : String) : String :=
   | "decskel" :: args => SuiteDecSkel.handle args
   | "encskel" :: args => SuiteEncSkel.handle args
   | "misc" :: args => SuiteMisc.handle args
+  | "silkcore" :: args => SuiteSilkCore.handle args
+  | "silkresamp" :: args => SuiteSilkResamp.handle args
+  | "silkplc" :: args => SuiteSilkPlc.handle args
   | _ => "bad-suite"
 
 structure Stats where
